@@ -246,6 +246,15 @@ class Interp:
                 return BV(a.w, a.b[sh:] + [fill] * sh, a.signed)
             if op == ',':
                 return self.eval(n['inner'][1], env, depth)
+            if op in ('&&', '||'):
+                a = self.truth(self.eval(n['inner'][0], env, depth))
+                # short circuit: the right operand is not evaluated when the left decides
+                if op == '&&' and a == 0:
+                    return BV(1, [0])
+                if op == '||' and a == 1:
+                    return BV(1, [1])
+                b = self.truth(self.eval(n['inner'][1], env, depth))
+                return BV(1, [c_and(a, b) if op == '&&' else c_or(a, b)])
             if op in ('+', '-', '*', '/', '%', '<', '>', '<=', '>=') or (op in ('==', '!=') ):
                 a = self.eval(n['inner'][0], env, depth)
                 b = self.eval(n['inner'][1], env, depth)
